@@ -7,6 +7,9 @@
     not the jalr of an auipc pair, is well-kinded, label-free, and names an accepted `Instr32` `i`
     has `eligible i` — for every label table and position the naming is read at (label-free makes
     them irrelevant).
+  * `labelFree_literal`, `labelFree_neg_literal`, `labelFree_of_closed` / `labelFree_of_parse`: with the front end's
+    evaluator, integer literals (any spelling, either sign) and expressions whose names are all CONSTANTS are
+    label-free.
   * `assemble_kept_not_eligible`, `assemble_no_eligible_literal_left` (program): in the list held after
     resolve_aligns of a successful `-c` run, every such instruction is not eligible; the second form
     reads everything off the run itself: the item resolves at its own byte offset against the RETURNED
@@ -129,6 +132,116 @@ theorem labelFree_literal (H : Hooks) (hH : H.arith = evalArith) (constants : Di
     (hlen : s.toList.length ≤ maxExprLen) : ImmLabelFree H constants (.arith s) := by
   intro L L' line p p'
   simp only [Imm.eval, hH, evalArith, BB.Props.C11.lit_arith _ s.toList n hs hlen]
+
+/-! ### label-free expressions in general: negative literals, constant-only expressions -/
+
+/-- the names an expression mentions -/
+def astNames : Ast → List String
+  | .lit _ => []
+  | .name s => [s]
+  | .unary _ a => astNames a
+  | .binary _ a b => astNames a ++ astNames b
+
+/-- evaluation consults the environment only at the names of the expression -/
+theorem evalAst_congr {env env' : String → Option Int} : ∀ (a : Ast), (∀ s ∈ astNames a, env s = env' s) →
+    evalAst env a = evalAst env' a
+  | .lit _, _ => rfl
+  | .name s, h => by simp only [evalAst, h s (by simp [astNames])]
+  | .unary op a, h => by simp only [evalAst, evalAst_congr a h]
+  | .binary op a b, h => by
+    simp only [evalAst, evalAst_congr a (fun s hs => h s (by simp [astNames, hs])),
+      evalAst_congr b (fun s hs => h s (by simp [astNames, hs]))]
+
+/-- the same through `Arithmetic.eval`: whatever the text is (too long, a character literal, not an expression
+    at all — then the answer does not depend on the environment anyway) -/
+theorem evalArithL_congr (l : List Char) (env env' : String → Option Int)
+    (h : ∀ toks ast, tokenize l = .ok toks → parseExpr toks = .ok ast → ∀ s ∈ astNames ast, env s = env' s) :
+    evalArithL l env = evalArithL l env' := by
+  have hpy : evalPy l env = evalPy l env' := by
+    unfold evalPy
+    cases ht : tokenize l with
+    | error e => rfl
+    | ok toks =>
+      simp only
+      cases hp : parseExpr toks with
+      | error e => rfl
+      | ok ast => simp only [evalAst_congr ast (h toks ast ht hp)]
+  unfold evalArithL
+  rw [hpy]
+
+/-- **an expression all of whose names are CONSTANTS is label-free** (with the front end's evaluator): its value
+    depends neither on the label table nor on the position.  No length bound, no well-formedness needed: a text
+    that does not parse evaluates to the same error everywhere. -/
+theorem labelFree_of_closed (H : Hooks) (hH : H.arith = evalArith) (constants : Dict) (e : String)
+    (hc : ∀ toks ast, tokenize e.toList = .ok toks → parseExpr toks = .ok ast →
+      ∀ s ∈ astNames ast, (constants.get s).isSome = true) : ImmLabelFree H constants (.arith e) := by
+  intro L L' line p p'
+  simp only [Imm.eval, hH, evalArith]
+  rw [evalArithL_congr e.toList (chainGet constants L) (chainGet constants L')]
+  intro toks ast ht hp s hs
+  have := hc toks ast ht hp s hs
+  unfold chainGet
+  cases hg : constants.get s with
+  | none => rw [hg] at this; cases this
+  | some v => rfl
+
+/-- the convenient form: the tokens and the syntax tree are given (closed instances: `by decide +kernel`) -/
+theorem labelFree_of_parse (H : Hooks) (hH : H.arith = evalArith) (constants : Dict) (e : String)
+    {toks : List Tok} {ast : Ast} (ht : tokenize e.toList = .ok toks) (hp : parseExpr toks = .ok ast)
+    (hc : ∀ s ∈ astNames ast, (constants.get s).isSome = true) : ImmLabelFree H constants (.arith e) := by
+  refine labelFree_of_closed H hH constants e ?_
+  intro toks' ast' ht' hp'
+  rw [ht] at ht'
+  cases ht'
+  rw [hp] at hp'
+  cases hp'
+  exact hc
+
+theorem tokAux_minus (f : Nat) (cs : List Char) : tokAux (f + 1) ('-' :: cs) = (Tok.minus :: ·) <$> tokAux f cs := by
+  rw [tokAux.eq_def]
+  have d1 : ¬ (('-' : Char) = ' ' ∨ ('-' : Char) = '\t') := by decide
+  have d2 : isDigitC '-' = false := by decide
+  have d3 : isIdentStart '-' = false := by decide
+  have d4 : ¬ (('-' : Char) = '+') := by decide
+  simp only [d1, d2, d3, d4, if_false, Bool.false_eq_true, if_true]
+
+/-- a leading `-` is one more token -/
+theorem tokenize_minus {l : List Char} {toks : List Tok} (h : tokenize l = .ok toks) :
+    tokenize ('-' :: l) = .ok (.minus :: toks) := by
+  unfold tokenize at h ⊢
+  by_cases ha : l.all allowedChar = true
+  · rw [if_pos ha] at h
+    have ha' : ('-' :: l).all allowedChar = true := by
+      rw [List.all_cons, ha]; decide
+    rw [if_pos ha']
+    have e1 : ('-' :: l).length + 1 = (l.length + 1) + 1 := rfl
+    rw [e1, tokAux_minus, h]
+    rfl
+  · rw [if_neg ha] at h
+    cases h
+
+/-- **a negative integer literal** — `-` followed by a decimal, hexadecimal or binary numeral — is label-free -/
+theorem labelFree_neg_literal (H : Hooks) (hH : H.arith = evalArith) (constants : Dict) (s : String) (n : Nat)
+    (hs : s.toList = '-' :: BB.Props.C11.decStr n ∨ s.toList = '-' :: BB.Props.C11.hexStr n ∨
+      s.toList = '-' :: BB.Props.C11.binStr n) : ImmLabelFree H constants (.arith s) := by
+  have ht : tokenize s.toList = .ok [.minus, .num n] := by
+    rcases hs with h | h | h <;> rw [h]
+    · exact tokenize_minus (tokenize_dec n)
+    · exact tokenize_minus (tokenize_hex n)
+    · exact tokenize_minus (tokenize_bin n)
+  exact labelFree_of_parse H hH constants s ht (ast := .unary .neg (.lit n)) rfl (by intro s hs; simp [astNames] at hs)
+
+/-- instances with the text front end's hooks: `-32`, `-0x20`, and `K + 2` where `K` is a constant -/
+example (fs : FS) (cs : Dict) : ImmLabelFree (textHooks fs) cs (.arith "-32") :=
+  labelFree_neg_literal (textHooks fs) rfl cs "-32" 32 (Or.inl (by decide +kernel))
+example (fs : FS) (cs : Dict) : ImmLabelFree (textHooks fs) cs (.arith "-0x20") :=
+  labelFree_neg_literal (textHooks fs) rfl cs "-0x20" 32 (Or.inr (Or.inl (by decide +kernel)))
+example (fs : FS) : ImmLabelFree (textHooks fs) [("K", 16)] (.arith "4 * (K + 2)") :=
+  labelFree_of_parse (textHooks fs) rfl [("K", 16)] "4 * (K + 2)"
+    (toks := [.num 4, .star, .lparen, .name "K", .plus, .num 2, .rparen])
+    (ast := .binary .mul (.lit 4) (.binary .add (.name "K") (.lit 2)))
+    (by decide +kernel) (by decide +kernel)
+    (by intro s hs; simp only [astNames, List.nil_append, List.append_nil, List.mem_singleton] at hs; subst hs; rfl)
 
 /-! ### non-vacuity: a two-instruction program -/
 
